@@ -307,7 +307,8 @@ class _StarFinderCatalog:
     def cutout_data(self):
         cutout = []
         for slc in self.slices:
-            cdata = self.data[slc]
+            # copy the cutout so that the input data is not modified
+            cdata = self.data[slc].copy()
             cdata[cdata < 0] = 0.0  # exclude negative pixels
             cutout.append(cdata)
         return cutout
